@@ -19,19 +19,127 @@ import (
 // C05 — no credential: the server stays silent and creates nothing.
 // C06 (protocol level) — byte-exact replays of accepted traffic draw no reply and open no session.
 //
-// A real server (protocol.Mux) runs on the in-memory network with two registered users. Genuine
-// sessions run first (and concurrently); their captured client→server bytes / datagrams are the raw
-// material of the probes. Every probe is sent from a fresh connection / a fresh source address.
-// Oracle: bytes (datagrams) leaving the server for the probing peer = 0, Accept did not fire for it,
-// the exported session list did not grow. The Lean first-contact model (Mieru.Model.Server) predicts
-// each probe's outcome class from its construction.
+// A real server (protocol.Mux) runs on the in-memory network with registered users. Genuine sessions
+// run first (and concurrently); their captured client→server bytes / datagrams are the raw material of
+// the probes. Every probe is sent from a fresh connection / a fresh source address.
+//
+// Two stages:
+//   * batch (this file): many worlds in parallel, 40+ probes each, all of classes the model predicts
+//     to be silent. Direct oracle: bytes (datagrams) leaving the server for the probing peer = 0,
+//     Accept did not fire for it, the exported session list did not grow. The model (tcpRun / udpRun
+//     on the probe's unit tokens) must predict out = 0, accepted = 0 for each.
+//   * differential (c05_diff.go): one world at a time, one probe at a time; the branch the real server
+//     took is read from its own counters and compared with the unit token, and the model's whole
+//     reply (outputs, close requests, sessions accepted, closed) with what was measured — including
+//     authenticated multi-segment streams (positive controls) so that later iterations of the step
+//     function are compared.
+
+// ---- unit tokens of the Lean first-contact model (Mieru.Driver.Server) ----------------------------
+
+type tcpTok struct {
+	Avail int
+	EOF   bool
+	Opens string // "none" or a user id
+	Dup   bool
+	Proto int
+	Sid   uint32
+	PL    int // payloadLen
+	Pre   int
+	Suf   int
+	TSBad bool
+	LEBad bool
+	Body  int
+	POBad bool
+}
+
+func c05b(b bool) int {
+	if b {
+		return 1
+	}
+	return 0
+}
+
+func (t tcpTok) String() string {
+	o := t.Opens
+	if o == "" {
+		o = "none"
+	}
+	return fmt.Sprintf("%d/%d/%s/%d/%d/%d/%d/%d/%d/%d/%d/%d/%d", t.Avail, c05b(t.EOF), o, c05b(t.Dup), t.Proto, t.Sid, t.PL, t.Pre, t.Suf, c05b(!t.TSBad), c05b(!t.LEBad), t.Body, c05b(!t.POBad))
+}
+
+type udpTok struct {
+	Len      int
+	Existing string
+	Discover string
+	Dup      bool
+	Proto    int
+	Sid      uint32
+	PL       int
+	Pre      int
+	Suf      int
+	TSBad    bool
+	LEBad    bool
+	POBad    bool
+}
+
+func (t udpTok) String() string {
+	e, d := t.Existing, t.Discover
+	if e == "" {
+		e = "none"
+	}
+	if d == "" {
+		d = "none"
+	}
+	return fmt.Sprintf("%d/%s/%s/%d/%d/%d/%d/%d/%d/%d/%d/%d", t.Len, e, d, c05b(t.Dup), t.Proto, t.Sid, t.PL, t.Pre, t.Suf, c05b(!t.TSBad), c05b(!t.LEBad), c05b(!t.POBad))
+}
+
+// tcpNoKey: n bytes that open under no registered key, then (optionally) the end of the stream.
+func tcpNoKey(n int, eof bool) tcpTok {
+	if n > 72 {
+		n = 72 // the header read takes 72 bytes; what follows is never parsed
+	}
+	return tcpTok{Avail: n, EOF: eof}
+}
+
+func udpNoKey(n int) udpTok { return udpTok{Len: n} }
+
+// tokOfSeg: the unit a decoded (genuine) segment presents as the first read of a stream, given how
+// many bytes of it arrive.
+func tokOfSeg(m wire.Meta, user string, arrived int, dup bool, eof bool) tcpTok {
+	if arrived < 72 {
+		return tcpTok{Avail: arrived, EOF: eof}
+	}
+	need := int(m.SuffixLen)
+	if !m.IsSession() {
+		need += int(m.PrefixLen)
+	}
+	if m.PayloadLen > 0 {
+		need += int(m.PayloadLen) + 16
+	}
+	body := arrived - 72
+	if body > need {
+		body = need
+	}
+	return tcpTok{Avail: 72, EOF: eof, Opens: user, Dup: dup, Proto: int(m.Proto), Sid: m.SessionID, PL: int(m.PayloadLen), Pre: int(m.PrefixLen), Suf: int(m.SuffixLen), Body: body}
+}
+
+func udpTokOfSeg(m wire.Meta, user string, n int, dup bool) udpTok {
+	if n < 72 {
+		return udpTok{Len: n}
+	}
+	return udpTok{Len: n, Discover: user, Dup: dup, Proto: int(m.Proto), Sid: m.SessionID, PL: int(m.PayloadLen), Pre: int(m.PrefixLen), Suf: int(m.SuffixLen)}
+}
+
+// ---- probes -------------------------------------------------------------------------------------------
 
 type probe struct {
-	Class  string `json:"class"`
-	Data   string `json:"data"` // hex
-	Note   string `json:"note,omitempty"`
-	Model  string `json:"model"`         // unit tokens for the Lean model
-	Expect bool   `json:"expect_accept"` // positive controls only
+	Class string `json:"class"`
+	Data  string `json:"data"` // hex
+	Note  string `json:"note,omitempty"`
+	Model string `json:"model"`         // unit tokens for the Lean model, by construction
+	EOF   bool   `json:"eof,omitempty"` // TCP: end the stream after the bytes (half close)
+	Key   string `json:"key,omitempty"` // hex key under which the server's answer decodes (authenticated streams)
+	From  string `json:"from,omitempty"`
 }
 
 type probeCase struct {
@@ -39,22 +147,28 @@ type probeCase struct {
 	UDP    bool    `json:"udp"`
 	Probes []probe `json:"probes"`
 	Stage  string  `json:"stage"`
+	LE     bool    `json:"low_entropy,omitempty"`
+	Reload string  `json:"reload_variant,omitempty"`
 }
+
+var probeUsers = []sim.User{{Name: "alice", Password: "alice-secret"}, {Name: "bob", Password: "bob-secret"}, {Name: "nopass"}}
+
+// user ids of the model = index in the registry's name order (1-based in the code; only identity matters)
+const aliceID = "0"
 
 type probeWorld struct {
-	w        *sim.World
-	accepted chan net.Conn
-	stop     chan struct{}
-	nAccept  int
-	mu       sync.Mutex
+	w       *sim.World
+	stop    chan struct{}
+	nAccept int
+	mu      sync.Mutex
 }
 
-func newProbeWorld(seed int64, udp bool) (*probeWorld, error) {
-	w, err := sim.NewWorld(sim.Config{UDP: udp, Seed: seed, Users: []sim.User{{Name: "alice", Password: "alice-secret"}, {Name: "bob", Password: "bob-secret"}, {Name: "nopass"}}})
+func newProbeWorldCfg(cfg sim.Config) (*probeWorld, error) {
+	w, err := sim.NewWorld(cfg)
 	if err != nil {
 		return nil, err
 	}
-	pw := &probeWorld{w: w, accepted: make(chan net.Conn, 1024), stop: make(chan struct{})}
+	pw := &probeWorld{w: w, stop: make(chan struct{})}
 	go func() {
 		for {
 			conn, err := w.Server.Accept()
@@ -80,6 +194,10 @@ func newProbeWorld(seed int64, udp bool) (*probeWorld, error) {
 		}
 	}()
 	return pw, nil
+}
+
+func newProbeWorld(seed int64, udp bool) (*probeWorld, error) {
+	return newProbeWorldCfg(sim.Config{UDP: udp, Seed: seed, Users: probeUsers})
 }
 
 func (pw *probeWorld) accepts() int {
@@ -113,211 +231,449 @@ func (pw *probeWorld) genuine(msg []byte) bool {
 	return string(got) == string(msg)
 }
 
-// firstSegments returns the client→server bytes of the first captured TCP connection and the
-// offsets at which its segments end.
-func (pw *probeWorld) tcpMaterial() (stream []byte, ends []int) {
+type tcpMaterial struct {
+	stream []byte          // client→server bytes of one genuine connection
+	segs   []*wire.Segment // its decoded segments
+	ends   []int           // offsets at which they end
+	s2c    []byte          // what the server wrote on that connection
+}
+
+// tcpMaterial returns the client→server bytes of the first captured TCP connection and the offsets at
+// which its segments end.
+func (pw *probeWorld) tcpMaterial() (m tcpMaterial) {
 	for _, ds := range pw.w.DecodeStreams() {
 		if ds.ClientToServer && ds.Err == nil && len(ds.Segs) > 0 {
 			pw.w.Net.Lock()
 			cp := pw.w.Net.Streams[ds.ConnID]
 			pw.w.Net.Unlock()
-			c2s, _, _, _ := cp.Snapshot()
+			c2s, s2c, _, _ := cp.Snapshot()
 			off := 0
 			for _, s := range ds.Segs {
 				off += s.WireLen
-				ends = append(ends, off)
+				m.ends = append(m.ends, off)
 			}
-			return c2s, ends
+			m.stream, m.segs, m.s2c = c2s, ds.Segs, s2c
+			return m
 		}
 	}
-	return nil, nil
+	return m
 }
 
-func genProbesTCP(r *rand.Rand, stream []byte, ends []int, n int, stage string) []probe {
-	var ps []probe
-	first := stream[:ends[0]]
-	silentNoKey := "1/none/0/1/1/unknown"
-	add := func(class string, data []byte, model string, note string) {
-		ps = append(ps, probe{Class: class, Data: core.Hex(data), Model: model, Note: note})
+// ---- builders of well-formed units (reference codec) ------------------------------------------------
+
+type openOpts struct {
+	Sid       uint32
+	SidSet    bool
+	TSDelta   int   // minutes added to the current minute
+	Payload   int   // payload length; -1 = random 1..200
+	Pad       int   // padding length; -1 = random 8..71
+	Proto     uint8 // 0 = openSessionRequest
+	HintUser  string
+	BadHashed []byte // if set, the key is derived from this hashed password instead
+}
+
+type built struct {
+	Data []byte
+	Meta wire.Meta
+	Key  []byte
+}
+
+func hashedOf(user, pass string) []byte { return wire.HashedPassword(user, pass) }
+
+func buildMeta(r *rand.Rand, o openOpts) (wire.Meta, []byte, []byte) {
+	pl := o.Payload
+	if pl < 0 {
+		pl = 1 + r.Intn(200)
 	}
-	for i := 0; i < n; i++ {
-		switch stage {
-		case "C06":
-			switch r.Intn(4) {
-			case 0:
-				add("replay-whole-stream", stream, "1/0/1/1/1/open-1", "")
-			case 1:
-				add("replay-first-segment", first, "1/0/1/1/1/open-1", "")
-			case 2:
-				e := ends[r.Intn(len(ends))]
-				add("replay-prefix-at-segment-boundary", stream[:e], "1/0/1/1/1/open-1", fmt.Sprint(e))
-			case 3:
-				e := 72 + r.Intn(len(stream)-72+1)
-				add("replay-arbitrary-prefix", stream[:e], "1/0/1/1/1/open-1", fmt.Sprint(e))
-			}
-		default:
-			switch r.Intn(11) {
-			case 0: // random bytes, every length class
-				ln := []int{0, 1, 23, 24, 47, 48, 71, 72, 73, 100, 1000, 2000}[r.Intn(12)]
-				if r.Intn(2) == 0 {
-					ln = r.Intn(2001)
-				}
-				b := make([]byte, ln)
-				r.Read(b)
-				m := silentNoKey
-				if ln < 72 {
-					m = "0/none/0/0/0/unknown"
-				}
-				add("random", b, m, fmt.Sprint(ln))
-			case 1: // strict prefix of the genuine first segment shorter than a header
-				e := r.Intn(72)
-				add("genuine-prefix-short", first[:e], "0/none/0/0/0/unknown", fmt.Sprint(e))
-			case 2: // prefix ≥ 72 bytes of a genuine (already seen) stream: a replay
-				e := 72 + r.Intn(len(stream)-72+1)
-				add("genuine-prefix-replay", stream[:e], "1/0/1/1/1/open-1", fmt.Sprint(e))
-			case 3, 4: // single-bit flip of the genuine first segment
-				b := append([]byte(nil), first...)
-				pos := r.Intn(len(b))
-				if r.Intn(2) == 0 {
-					pos = r.Intn(72)
-				}
-				b[pos] ^= 1 << uint(r.Intn(8))
-				m := "1/0/1/1/1/open-1" // same 16-byte signature: replay, whatever else changed
-				if pos < 16 {
-					m = silentNoKey // new signature, but the nonce changed: nothing opens
-				}
-				add("genuine-bitflip", b, m, fmt.Sprint(pos))
-			case 5: // well-formed handshake under a wrong password
-				add("wrong-password", wireHandshake(r, "alice", "not-the-password", "alice"), silentNoKey, "")
-			case 6: // well-formed handshake of an unregistered user
-				add("unknown-user", wireHandshake(r, "mallory", "mallory-secret", "mallory"), silentNoKey, "")
-			case 7: // unregistered credential, hint forged for a real user
-				add("forged-hint", wireHandshake(r, "mallory", "mallory-secret", "alice"), silentNoKey, "")
-			case 10: // a user record without any password is registered: its name alone is not a credential
-				add("name-only-user", wireHandshake(r, "nopass", "", "nopass"), silentNoKey, "")
-			case 9: // strict prefix of a genuine first segment the server has NEVER seen in full
-				// (an on-path attacker truncates the handshake): nothing may be created or answered
-				b := wireHandshake(r, "alice", "alice-secret", "alice")
-				cut := r.Intn(len(b))
-				if r.Intn(2) == 0 {
-					cut = len(b) - 1 - r.Intn(8) // inside the trailing padding
-				}
-				m := "0/none/0/0/0/unknown"
-				if cut >= 72 {
-					m = "1/0/0/1/0/open-1" // metadata opens, the body (payload / padding) never completes
-				}
-				add("fresh-genuine-truncated", b[:cut], m, fmt.Sprint(cut))
-			case 8: // truncated well-formed handshake under a foreign credential
-				b := wireHandshake(r, "mallory", "x", "bob")
-				add("foreign-truncated", b[:r.Intn(len(b))], "", "")
-				if len(core.UnHex(ps[len(ps)-1].Data)) < 72 {
-					ps[len(ps)-1].Model = "0/none/0/0/0/unknown"
-				} else {
-					ps[len(ps)-1].Model = silentNoKey
-				}
-			}
-		}
+	pad := o.Pad
+	if pad < 0 {
+		pad = 8 + r.Intn(64)
 	}
-	return ps
+	payload := make([]byte, pl)
+	r.Read(payload)
+	padding := make([]byte, pad)
+	r.Read(padding)
+	sid := o.Sid
+	if !o.SidSet {
+		sid = 1 + r.Uint32()%1000000
+	}
+	proto := o.Proto
+	if proto == 0 {
+		proto = wire.OpenSessionRequest
+	}
+	m := wire.Meta{Proto: proto, Timestamp: uint32(time.Now().Unix()/60 + int64(o.TSDelta)), SessionID: sid}
+	return m, payload, padding
+}
+
+func newNonce(r *rand.Rand, hintUser string) []byte {
+	nonce := make([]byte, 24)
+	r.Read(nonce)
+	copy(nonce[20:], wire.UserHint(hintUser, nonce))
+	return nonce
+}
+
+// buildOpenTCP builds a well-formed first TCP segment under the given hashed password.
+func buildOpenTCP(r *rand.Rand, hashed []byte, o openOpts) built {
+	key := wire.KeyForSlot(hashed, wire.RoundTo2Min(time.Now().Unix()))
+	enc := &wire.StreamEncoder{Key: key, Nonce: newNonce(r, o.HintUser)}
+	m, payload, pad := buildMeta(r, o)
+	data := enc.Seal(m, payload, nil, pad, 0)
+	m.PayloadLen, m.SuffixLen = uint16(len(payload)), uint8(len(pad))
+	return built{Data: data, Meta: m, Key: key}
+}
+
+func buildOpenUDP(r *rand.Rand, hashed []byte, o openOpts) built {
+	key := wire.KeyForSlot(hashed, wire.RoundTo2Min(time.Now().Unix()))
+	m, payload, pad := buildMeta(r, o)
+	var data []byte
+	if m.IsSession() {
+		data = wire.SealUDP(key, newNonce(r, o.HintUser), m, payload, nil, pad, 0)
+	} else {
+		data = wire.SealUDP(key, newNonce(r, o.HintUser), m, payload, nil, pad, 0)
+	}
+	m.PayloadLen, m.SuffixLen = uint16(len(payload)), uint8(len(pad))
+	return built{Data: data, Meta: m, Key: key}
 }
 
 // wireHandshake builds a well-formed first TCP segment (open session request with payload and
 // padding) with the reference codec under the given credential; the hint names hintUser.
 func wireHandshake(r *rand.Rand, user, pass, hintUser string) []byte {
-	key := wire.KeyForSlot(wire.HashedPassword(user, pass), wire.RoundTo2Min(time.Now().Unix()))
-	nonce := make([]byte, 24)
-	r.Read(nonce)
-	copy(nonce[20:], wire.UserHint(hintUser, nonce))
-	enc := &wire.StreamEncoder{Key: key, Nonce: nonce}
-	payload := make([]byte, 1+r.Intn(200))
-	r.Read(payload)
-	pad := make([]byte, 8+r.Intn(64))
-	r.Read(pad)
-	m := wire.Meta{Proto: wire.OpenSessionRequest, Timestamp: uint32(time.Now().Unix() / 60), SessionID: 1 + r.Uint32()%1000000}
-	return enc.Seal(m, payload, nil, pad, 0)
+	return buildOpenTCP(r, hashedOf(user, pass), openOpts{Payload: -1, Pad: -1, HintUser: hintUser}).Data
 }
 
 func wireDatagram(r *rand.Rand, user, pass, hintUser string) []byte {
-	key := wire.KeyForSlot(wire.HashedPassword(user, pass), wire.RoundTo2Min(time.Now().Unix()))
-	nonce := make([]byte, 24)
-	r.Read(nonce)
-	copy(nonce[20:], wire.UserHint(hintUser, nonce))
-	payload := make([]byte, 1+r.Intn(200))
-	r.Read(payload)
-	pad := make([]byte, 8+r.Intn(64))
-	r.Read(pad)
-	m := wire.Meta{Proto: wire.OpenSessionRequest, Timestamp: uint32(time.Now().Unix() / 60), SessionID: 1 + r.Uint32()%1000000}
-	return wire.SealUDP(key, nonce, m, payload, nil, pad, 0)
+	return buildOpenUDP(r, hashedOf(user, pass), openOpts{Payload: -1, Pad: -1, HintUser: hintUser}).Data
 }
 
-func genProbesUDP(r *rand.Rand, dgrams [][]byte, n int, stage string) []probe {
-	var ps []probe
-	silent := "1/none/none/0/1/1/unknown"
-	add := func(class string, data []byte, model, note string) {
-		ps = append(ps, probe{Class: class, Data: core.Hex(data), Model: model, Note: note})
+// stableMinute waits, if needed, until the wall clock is at least `margin` away from the next minute
+// tick, so that a unit stamped now is judged in the minute it was stamped in.
+func stableMinute(margin time.Duration) {
+	now := time.Now()
+	left := time.Duration(60-now.Second())*time.Second - time.Duration(now.Nanosecond())
+	if left < margin {
+		time.Sleep(left + 200*time.Millisecond)
 	}
-	for i := 0; i < n; i++ {
-		g := dgrams[r.Intn(len(dgrams))]
-		if stage == "C06" {
-			add("replay-datagram-other-source", g, "1/none/0/1/1/1/open-1", "")
-			continue
+}
+
+// ---- generators: classes the model predicts silent ----------------------------------------------------
+
+// boundary lengths of the two header reads (first 72 = 24 + 32 + 16, later 48) and of the datagram header
+var tcpBoundaryLens = []int{0, 1, 23, 24, 47, 48, 49, 71, 72, 73, 100, 1000, 2000}
+var udpBoundaryLens = []int{0, 1, 47, 71, 72, 73, 500, 1400, 1500}
+
+func genProbesTCP(r *rand.Rand, mat tcpMaterial, n int, stage string) []probe {
+	var ps []probe
+	stream, ends := mat.stream, mat.ends
+	first := stream[:ends[0]]
+	fm := mat.segs[0].Meta
+	add := func(class string, data []byte, tok tcpTok, note string) {
+		ps = append(ps, probe{Class: class, Data: core.Hex(data), Model: tok.String(), Note: note})
+	}
+	replayTok := func(n int) tcpTok { return tokOfSeg(fm, aliceID, n, true, false) }
+	bitflip := func(pos int, bit uint) {
+		b := append([]byte(nil), first...)
+		b[pos] ^= 1 << bit
+		var tok tcpTok
+		switch {
+		case pos < 16: // new signature; the nonce changed: nothing opens
+			tok = tcpNoKey(len(b), false)
+		case pos < 72: // same 16-byte signature: reported; nonce tail / metadata / tag damaged: nothing opens
+			tok = tcpNoKey(len(b), false)
+			tok.Dup = true
+		default: // header intact: opens, and is a replay, whatever else changed
+			tok = replayTok(len(b))
 		}
-		switch r.Intn(10) {
-		case 0:
-			ln := []int{0, 1, 47, 71, 72, 73, 500, 1400, 1500}[r.Intn(9)]
-			if r.Intn(2) == 0 {
-				ln = r.Intn(1501)
+		add("genuine-bitflip", b, tok, fmt.Sprint(pos))
+	}
+	freshTrunc := func(cut int, b built) {
+		if cut > len(b.Data) {
+			cut = len(b.Data)
+		}
+		add("fresh-genuine-truncated", b.Data[:cut], tokOfSeg(b.Meta, aliceID, cut, false, false), fmt.Sprintf("%d of %d", cut, len(b.Data)))
+	}
+	if stage == "C06" {
+		// deterministic: whole stream, first segment alone, every segment boundary, header only, header + 1
+		add("replay-whole-stream", stream, replayTok(len(stream)), "")
+		add("replay-first-segment", first, replayTok(len(first)), "")
+		for _, e := range ends {
+			add("replay-prefix-at-segment-boundary", stream[:e], replayTok(e), fmt.Sprint(e))
+		}
+		for _, e := range []int{72, 73, len(first) - 1, len(first) + 1} {
+			if e >= 72 && e <= len(stream) {
+				add("replay-arbitrary-prefix", stream[:e], replayTok(e), fmt.Sprint(e))
 			}
+		}
+		for len(ps) < n {
+			switch r.Intn(4) {
+			case 0:
+				add("replay-whole-stream", stream, replayTok(len(stream)), "")
+			case 1:
+				add("replay-first-segment", first, replayTok(len(first)), "")
+			case 2:
+				e := ends[r.Intn(len(ends))]
+				add("replay-prefix-at-segment-boundary", stream[:e], replayTok(e), fmt.Sprint(e))
+			case 3:
+				e := 72 + r.Intn(len(stream)-72+1)
+				add("replay-arbitrary-prefix", stream[:e], replayTok(e), fmt.Sprint(e))
+			}
+		}
+		return ps
+	}
+	// ---- deterministic boundaries, every run ----
+	for _, ln := range tcpBoundaryLens {
+		b := make([]byte, ln)
+		r.Read(b)
+		add("random", b, tcpNoKey(ln, false), fmt.Sprint(ln))
+	}
+	for _, e := range []int{0, 1, 24, 71} {
+		add("genuine-prefix-short", first[:e], tcpNoKey(e, false), fmt.Sprint(e))
+	}
+	for _, e := range []int{72, 73, len(first) - 1, len(first), len(first) + 1} {
+		if e <= len(stream) {
+			add("genuine-prefix-replay", stream[:e], replayTok(e), fmt.Sprint(e))
+		}
+	}
+	for _, pos := range []int{0, 15, 16, 19, 20, 23, 24, 55, 56, 71, 72, len(first) - 1} {
+		if pos < len(first) {
+			bitflip(pos, uint(r.Intn(8)))
+		}
+	}
+	{
+		b := buildOpenTCP(r, hashedOf("alice", "alice-secret"), openOpts{Payload: 100, Pad: 20, HintUser: "alice"})
+		for _, cut := range []int{71, 72, 73, 72 + 115, 72 + 116, len(b.Data) - 1} {
+			fb := buildOpenTCP(r, hashedOf("alice", "alice-secret"), openOpts{Payload: 100, Pad: 20, HintUser: "alice"})
+			freshTrunc(cut, fb)
+		}
+		_ = b
+	}
+	add("wrong-password", wireHandshake(r, "alice", "not-the-password", "alice"), tcpNoKey(72, false), "")
+	add("unknown-user", wireHandshake(r, "mallory", "mallory-secret", "mallory"), tcpNoKey(72, false), "")
+	add("forged-hint", wireHandshake(r, "mallory", "mallory-secret", "alice"), tcpNoKey(72, false), "")
+	add("forged-hint", wireHandshake(r, "mallory", "mallory-secret", "bob"), tcpNoKey(72, false), "")
+	add("name-only-user", wireHandshake(r, "nopass", "", "nopass"), tcpNoKey(72, false), "")
+	// ---- random stream ----
+	for len(ps) < n {
+		switch r.Intn(11) {
+		case 0: // random bytes, every length class
+			ln := r.Intn(2001)
 			b := make([]byte, ln)
 			r.Read(b)
-			m := silent
-			if ln < 72 {
-				m = "0/none/none/0/0/0/unknown"
-			}
-			add("random", b, m, fmt.Sprint(ln))
-		case 1:
-			e := r.Intn(len(g))
-			m := "1/none/0/1/1/0/open-1" // signature seen from another source
-			if e < 72 {
-				m = "0/none/none/0/0/0/unknown"
-			}
-			add("genuine-truncated", g[:e], m, fmt.Sprint(e))
-		case 2, 3:
-			b := append([]byte(nil), g...)
-			pos := r.Intn(len(b))
+			add("random", b, tcpNoKey(ln, false), fmt.Sprint(ln))
+		case 1: // strict prefix of the genuine first segment shorter than a header
+			e := r.Intn(72)
+			add("genuine-prefix-short", first[:e], tcpNoKey(e, false), fmt.Sprint(e))
+		case 2: // prefix ≥ 72 bytes of a genuine (already seen) stream: a replay
+			e := 72 + r.Intn(len(stream)-72+1)
+			add("genuine-prefix-replay", stream[:e], replayTok(e), fmt.Sprint(e))
+		case 3, 4: // single-bit flip of the genuine first segment
+			pos := r.Intn(len(first))
 			if r.Intn(2) == 0 {
 				pos = r.Intn(72)
 			}
-			b[pos] ^= 1 << uint(r.Intn(8))
-			m := "1/none/0/1/1/1/open-1"
-			if pos < 16 {
-				m = silent
-			}
-			add("genuine-bitflip", b, m, fmt.Sprint(pos))
-		case 4:
-			add("wrong-password", wireDatagram(r, "alice", "not-the-password", "alice"), silent, "")
-		case 5:
-			add("unknown-user", wireDatagram(r, "mallory", "mallory-secret", "mallory"), silent, "")
-		case 6:
-			add("forged-hint", wireDatagram(r, "mallory", "mallory-secret", "bob"), silent, "")
-		case 7:
-			add("replay-datagram-other-source", g, "1/none/0/1/1/1/open-1", "")
-		case 9:
-			add("name-only-user", wireDatagram(r, "nopass", "", "nopass"), silent, "")
-		case 8: // strict prefix of a genuine first datagram the server has never seen in full
-			b := wireDatagram(r, "alice", "alice-secret", "alice")
-			cut := r.Intn(len(b))
+			bitflip(pos, uint(r.Intn(8)))
+		case 5: // well-formed handshake under a wrong password
+			add("wrong-password", wireHandshake(r, "alice", "not-the-password", "alice"), tcpNoKey(72, false), "")
+		case 6: // well-formed handshake of an unregistered user
+			add("unknown-user", wireHandshake(r, "mallory", "mallory-secret", "mallory"), tcpNoKey(72, false), "")
+		case 7: // unregistered credential, hint forged for a real user
+			add("forged-hint", wireHandshake(r, "mallory", "mallory-secret", "alice"), tcpNoKey(72, false), "")
+		case 10: // a user record without any password is registered: its name alone is not a credential
+			add("name-only-user", wireHandshake(r, "nopass", "", "nopass"), tcpNoKey(72, false), "")
+		case 9: // strict prefix of a genuine first segment the server has NEVER seen in full
+			// (an on-path attacker truncates the handshake): nothing may be created or answered
+			b := buildOpenTCP(r, hashedOf("alice", "alice-secret"), openOpts{Payload: -1, Pad: -1, HintUser: "alice"})
+			cut := r.Intn(len(b.Data))
 			if r.Intn(2) == 0 {
-				cut = len(b) - 1 - r.Intn(8) // inside the trailing padding
+				cut = len(b.Data) - 1 - r.Intn(8) // inside the trailing padding
 			}
-			m := "0/none/none/0/0/0/unknown"
-			if cut >= 72 {
-				m = "1/none/0/0/1/0/open-1" // metadata opens under discovery, exact size checks fail
-			}
-			add("fresh-genuine-truncated", b[:cut], m, fmt.Sprint(cut))
+			freshTrunc(cut, b)
+		case 8: // truncated well-formed handshake under a foreign credential
+			b := wireHandshake(r, "mallory", "x", "bob")
+			cut := r.Intn(len(b))
+			add("foreign-truncated", b[:cut], tcpNoKey(cut, false), fmt.Sprint(cut))
 		}
 	}
 	return ps
+}
+
+func genProbesUDP(r *rand.Rand, dgrams []sim.DecodedDatagram, n int, stage string) []probe {
+	var ps []probe
+	add := func(class string, data []byte, tok udpTok, note string) {
+		ps = append(ps, probe{Class: class, Data: core.Hex(data), Model: tok.String(), Note: note})
+	}
+	pick := func() sim.DecodedDatagram { return dgrams[r.Intn(len(dgrams))] }
+	replayTok := func(d sim.DecodedDatagram, n int) udpTok { return udpTokOfSeg(d.Seg.Meta, aliceID, n, true) }
+	bitflip := func(d sim.DecodedDatagram, pos int, bit uint) {
+		b := append([]byte(nil), d.Data...)
+		b[pos] ^= 1 << bit
+		var tok udpTok
+		switch {
+		case pos < 16:
+			tok = udpNoKey(len(b))
+		case pos < 72:
+			tok = udpNoKey(len(b))
+			tok.Dup = true
+		default:
+			tok = replayTok(d, len(b))
+		}
+		add("genuine-bitflip", b, tok, fmt.Sprint(pos))
+	}
+	freshTrunc := func(cut int, b built) {
+		if cut > len(b.Data) {
+			cut = len(b.Data)
+		}
+		add("fresh-genuine-truncated", b.Data[:cut], udpTokOfSeg(b.Meta, aliceID, cut, false), fmt.Sprintf("%d of %d", cut, len(b.Data)))
+	}
+	if stage == "C06" {
+		// the copy comes from another HOST, or from the original sender's host and another PORT: both are
+		// "a different source address" (the cache's tag is ip:port)
+		sameHost := func(d sim.DecodedDatagram) {
+			host, _, _ := net.SplitHostPort(d.From)
+			ps = append(ps, probe{Class: "replay-datagram-same-host-other-port", Data: core.Hex(d.Data), Model: replayTok(d, len(d.Data)).String(), From: host})
+		}
+		for i, d := range dgrams {
+			if len(ps) < n {
+				if i%2 == 0 {
+					add("replay-datagram-other-source", d.Data, replayTok(d, len(d.Data)), "")
+				} else {
+					sameHost(d)
+				}
+			}
+		}
+		for len(ps) < n {
+			d := pick()
+			if r.Intn(2) == 0 {
+				add("replay-datagram-other-source", d.Data, replayTok(d, len(d.Data)), "")
+			} else {
+				sameHost(d)
+			}
+		}
+		return ps
+	}
+	g := dgrams[0]
+	for _, ln := range udpBoundaryLens {
+		b := make([]byte, ln)
+		r.Read(b)
+		add("random", b, udpNoKey(ln), fmt.Sprint(ln))
+	}
+	for _, e := range []int{0, 1, 71, 72, 73, len(g.Data) - 1} {
+		if e < len(g.Data) {
+			add("genuine-truncated", g.Data[:e], replayTok(g, e), fmt.Sprint(e))
+		}
+	}
+	add("genuine-extended", append(append([]byte(nil), g.Data...), 0), replayTok(g, len(g.Data)+1), "+1")
+	for _, pos := range []int{0, 15, 16, 20, 23, 24, 71, 72, len(g.Data) - 1} {
+		if pos < len(g.Data) {
+			bitflip(g, pos, uint(r.Intn(8)))
+		}
+	}
+	for _, cut := range []int{71, 72, 73, 72 + 115, 72 + 116, 72 + 135} {
+		freshTrunc(cut, buildOpenUDP(r, hashedOf("alice", "alice-secret"), openOpts{Payload: 100, Pad: 20, HintUser: "alice"}))
+	}
+	{
+		b := buildOpenUDP(r, hashedOf("alice", "alice-secret"), openOpts{Payload: 100, Pad: 20, HintUser: "alice"})
+		t := udpTokOfSeg(b.Meta, aliceID, len(b.Data)+1, false)
+		add("fresh-genuine-extended", append(append([]byte(nil), b.Data...), 7), t, "+1")
+	}
+	add("wrong-password", wireDatagram(r, "alice", "not-the-password", "alice"), udpNoKey(100), "")
+	add("unknown-user", wireDatagram(r, "mallory", "mallory-secret", "mallory"), udpNoKey(100), "")
+	add("forged-hint", wireDatagram(r, "mallory", "mallory-secret", "bob"), udpNoKey(100), "")
+	add("forged-hint", wireDatagram(r, "mallory", "mallory-secret", "alice"), udpNoKey(100), "")
+	add("name-only-user", wireDatagram(r, "nopass", "", "nopass"), udpNoKey(100), "")
+	add("replay-datagram-other-source", g.Data, replayTok(g, len(g.Data)), "")
+	{
+		host, _, _ := net.SplitHostPort(g.From)
+		ps = append(ps, probe{Class: "replay-datagram-same-host-other-port", Data: core.Hex(g.Data), Model: replayTok(g, len(g.Data)).String(), From: host})
+	}
+	for len(ps) < n {
+		g := pick()
+		switch r.Intn(10) {
+		case 0:
+			ln := r.Intn(1501)
+			b := make([]byte, ln)
+			r.Read(b)
+			add("random", b, udpNoKey(ln), fmt.Sprint(ln))
+		case 1:
+			e := r.Intn(len(g.Data))
+			add("genuine-truncated", g.Data[:e], replayTok(g, e), fmt.Sprint(e))
+		case 2, 3:
+			pos := r.Intn(len(g.Data))
+			if r.Intn(2) == 0 {
+				pos = r.Intn(72)
+			}
+			bitflip(g, pos, uint(r.Intn(8)))
+		case 4:
+			add("wrong-password", wireDatagram(r, "alice", "not-the-password", "alice"), udpNoKey(100), "")
+		case 5:
+			add("unknown-user", wireDatagram(r, "mallory", "mallory-secret", "mallory"), udpNoKey(100), "")
+		case 6:
+			add("forged-hint", wireDatagram(r, "mallory", "mallory-secret", "bob"), udpNoKey(100), "")
+		case 7:
+			add("replay-datagram-other-source", g.Data, replayTok(g, len(g.Data)), "")
+		case 9:
+			add("name-only-user", wireDatagram(r, "nopass", "", "nopass"), udpNoKey(100), "")
+		case 8: // strict prefix of a genuine first datagram the server has never seen in full
+			b := buildOpenUDP(r, hashedOf("alice", "alice-secret"), openOpts{Payload: -1, Pad: -1, HintUser: "alice"})
+			cut := r.Intn(len(b.Data))
+			if r.Intn(2) == 0 {
+				cut = len(b.Data) - 1 - r.Intn(8) // inside the trailing padding
+			}
+			freshTrunc(cut, b)
+		}
+	}
+	return ps
+}
+
+// modelReply is the parsed reply of srv-tcp / srv-udp.
+type modelReply struct {
+	Out, CloseReq, Accepted, Sessions, Closed, Drain int
+	OK                                               bool
+	Raw                                              string
+}
+
+func parseModelReply(s string) modelReply {
+	m := modelReply{Raw: s}
+	if !strings.HasPrefix(s, "ok ") {
+		return m
+	}
+	m.OK = true
+	for _, f := range strings.Fields(s)[1:] {
+		kv := strings.SplitN(f, "=", 2)
+		if len(kv) != 2 {
+			m.OK = false
+			continue
+		}
+		v := 0
+		fmt.Sscanf(kv[1], "%d", &v)
+		switch kv[0] {
+		case "out":
+			m.Out = v
+		case "closeReq":
+			m.CloseReq = v
+		case "accepted":
+			m.Accepted = v
+		case "sessions":
+			m.Sessions = v
+		case "closed":
+			m.Closed = v
+		case "drain":
+			m.Drain = v
+		case "recv":
+		default:
+			m.OK = false
+		}
+	}
+	return m
+}
+
+func clientDatagrams(w *sim.World) []sim.DecodedDatagram {
+	var dgrams []sim.DecodedDatagram
+	for _, d := range w.DecodeDatagrams() {
+		if d.Err == nil && d.To == "10.8.0.1:8964" {
+			dgrams = append(dgrams, d)
+		}
+	}
+	return dgrams
 }
 
 func runProbeCase(c *core.Ctx, k probeCase, prop string) {
@@ -337,35 +693,33 @@ func runProbeCase(c *core.Ctx, k probeCase, prop string) {
 		return
 	}
 	time.Sleep(50 * time.Millisecond)
-	if k.Stage == "C06" && k.UDP && k.Seed%2 == 0 {
-		// half of the UDP replay cases wait until the server no longer holds the recorded session
+	if k.Stage == "C06" && k.Seed%2 == 0 {
+		// half of the replay cases wait until the server no longer holds the recorded session
 		// ("after the original connection ended")
 		for i := 0; i < 80 && len(w.Server.ExportSessionInfoList().GetItems()) > 0; i++ {
 			time.Sleep(100 * time.Millisecond)
 		}
+		c.Hist("replay_timing", "after-the-original-session-ended")
+	} else if k.Stage == "C06" {
+		c.Hist("replay_timing", "right-after-the-echo")
 	}
 	probes := k.Probes
 	if probes == nil {
-		n := 40
+		n := 48
 		if k.UDP {
-			var dgrams [][]byte
-			for _, d := range w.DecodeDatagrams() {
-				if d.Err == nil && d.To == "10.8.0.1:8964" {
-					dgrams = append(dgrams, d.Data)
-				}
-			}
+			dgrams := clientDatagrams(w)
 			if len(dgrams) == 0 {
 				c.Disagree(prop+"/corr/no-genuine-material", "no genuine client datagram captured", k)
 				return
 			}
 			probes = genProbesUDP(r, dgrams, n, k.Stage)
 		} else {
-			stream, ends := pw.tcpMaterial()
-			if len(ends) == 0 {
+			mat := pw.tcpMaterial()
+			if len(mat.ends) == 0 {
 				c.Disagree(prop+"/corr/no-genuine-material", "no genuine client stream captured", k)
 				return
 			}
-			probes = genProbesTCP(r, stream, ends, n, k.Stage)
+			probes = genProbesTCP(r, mat, n, k.Stage)
 		}
 		k.Probes = probes
 	}
@@ -388,7 +742,11 @@ func runProbeCase(c *core.Ctx, k probeCase, prop string) {
 	for _, p := range probes {
 		data := core.UnHex(p.Data)
 		if k.UDP {
-			pc, err := w.Net.ListenPacket(context.Background(), "udp", "", "")
+			laddr := ""
+			if p.From != "" {
+				laddr = p.From + ":0" // the original sender's host, a fresh port
+			}
+			pc, err := w.Net.ListenPacket(context.Background(), "udp", laddr, "")
 			if err != nil {
 				continue
 			}
@@ -401,6 +759,9 @@ func runProbeCase(c *core.Ctx, k probeCase, prop string) {
 			}
 			if len(data) > 0 {
 				cc.Write(data)
+			}
+			if p.EOF {
+				cc.CloseWrite()
 			}
 			sents = append(sents, sent{p: p, cap: cc.Capture(), conn: cc})
 		}
@@ -420,9 +781,11 @@ func runProbeCase(c *core.Ctx, k probeCase, prop string) {
 		}
 	}
 	w.Net.Unlock()
+	modelAccepts := 0
 	for _, s := range sents {
 		c.Eval(fmt.Sprintf("%s/%v/%s/%s", k.Stage, k.UDP, s.p.Class, s.p.Data), true)
 		c.Hist("probe_class", map[bool]string{true: "udp:", false: "tcp:"}[k.UDP]+s.p.Class)
+		c.Hist("probe_length", map[bool]string{true: "udp:", false: "tcp:"}[k.UDP]+lenBucket(len(s.p.Data)/2))
 		out := 0
 		if k.UDP {
 			out = replied[s.paddr]
@@ -440,29 +803,49 @@ func runProbeCase(c *core.Ctx, k probeCase, prop string) {
 			c.Violate(fmt.Sprintf("%s/%s/server-replied/%s", prop, map[bool]string{true: "udp", false: "tcp"}[k.UDP], s.p.Class),
 				fmt.Sprintf("server sent %d %s to a peer that presented no registered credential / a replay (%s %s)", out, unit, s.p.Class, s.p.Note), single)
 		}
-		// model prediction
+		// model prediction for the unit this probe presents
 		op := "srv-tcp"
 		if k.UDP {
 			op = "srv-udp"
 		}
 		c.Compared()
-		reply := c.Model.Ask("%s %s", op, s.p.Model)
-		if !strings.HasPrefix(reply, "ok out=0 accepted=0 sessions=0") {
-			c.Disagree(prop+"/corr/model-predicts-reaction", fmt.Sprintf("class %s: model %s", s.p.Class, reply), single)
+		m := parseModelReply(c.Model.Ask("%s %s", op, s.p.Model))
+		if !m.OK {
+			c.Disagree(prop+"/corr/model-reply", fmt.Sprintf("class %s: model %q for %q", s.p.Class, m.Raw, s.p.Model), single)
+			continue
+		}
+		modelAccepts += m.Accepted
+		if (m.Out > 0) != (out > 0) || m.Accepted > 0 {
+			c.Disagree(prop+"/corr/model-predicts-reaction", fmt.Sprintf("class %s (%s): model %s, server sent %d", s.p.Class, s.p.Model, m.Raw, out), single)
 		}
 	}
 	// one accept for the concurrent genuine session, none for the probes
-	if after-before > 1 {
+	if after-before > 1+modelAccepts {
 		c.Violate(prop+"/session-created", fmt.Sprintf("%d sessions were handed to the proxy application while only one genuine session ran concurrently with %d credential-less probes", after-before, len(sents)), k)
 	}
 	if sessionsAfter > sessionsBefore+1 {
 		c.Violate(prop+"/session-list-grew", fmt.Sprintf("exported session list grew from %d to %d", sessionsBefore, sessionsAfter), k)
 	}
-	// positive control through the model: a genuine handshake is predicted to be accepted
-	c.Compared()
-	if reply := c.Model.Ask("srv-tcp 1/0/0/1/1/open-7"); reply != "ok out=1 accepted=1 sessions=1 closed=0" {
-		c.Disagree(prop+"/corr/model-positive-control", reply, nil)
+}
+
+func lenBucket(n int) string {
+	switch {
+	case n == 0:
+		return "0"
+	case n < 24:
+		return "1..23"
+	case n < 48:
+		return "24..47"
+	case n < 72:
+		return "48..71"
+	case n == 72:
+		return "72"
+	case n == 73:
+		return "73"
+	case n <= 1500:
+		return "74..1500"
 	}
+	return ">1500"
 }
 
 func init() {
@@ -475,24 +858,33 @@ func init() {
 			}
 			core.Parallel(n, 6, func(i int) { runProbeCase(c, cases[i], prop) })
 			bgClose.Wait(30 * time.Second)
-			c.Sample(map[string]interface{}{"stage": stage, "seed": cases[0].Seed, "udp": cases[0].UDP, "probes_per_case": 40})
+			c.Sample(map[string]interface{}{"stage": stage, "seed": cases[0].Seed, "udp": cases[0].UDP, "probes_per_case": 48})
 		}
 	}
 	core.Register("C05", &core.Scenario{
 		Run: func(c *core.Ctx) {
-			c.Res.Rule = "per case: a real server with two registered users; one genuine echo session first (raw material + positive control) and one concurrently; 40 probes, each from a fresh connection / source address: random bytes of lengths {0,1,23,24,47,48,71,72,73,100,1000,2000} and random lengths, strict prefixes of a genuine first segment, prefixes ≥ 72 bytes of the genuine stream, single-bit flips anywhere in the genuine first segment (half of them inside nonce+metadata), well-formed handshakes built by the reference codec under a wrong password / an unregistered user / an unregistered credential with a hint forged for a real user, truncations of those; TCP and UDP alternate. Distinct = distinct (transport, class, bytes)."
-			c.Correspondence("real server reaction (bytes/datagrams sent to the prober, Accept, session list) vs Mieru.Server.tcpRun / udpRun on the probe's abstract class")
+			c.Res.Rule = "batch stage, per case: a real server with registered users; one genuine echo session first (raw material + positive control) and one concurrently; ≥ 48 probes, each from a fresh connection / source address. EVERY run first sends the boundary set: random bytes of lengths {0,1,23,24,47,48,49,71,72,73,100,1000,2000} (UDP {0,1,47,71,72,73,500,1400,1500}), prefixes of a genuine first segment at {0,1,24,71,72,73,len-1,len,len+1}, single-bit flips at byte {0,15,16,19,20,23,24,55,56,71,72,last}, fresh genuine handshakes (never seen by the server) cut at {71,72,73, inside the payload, inside the tag, inside the padding, last byte} and extended by one byte (UDP), well-formed handshakes under a wrong password / an unregistered user / a forged hint naming each real user / a user record without password; then the random stream of the same classes. Differential stage: see c05_diff.go. Distinct = distinct (stage, transport, class, bytes)."
+			c.Correspondence("real server reaction (bytes/datagrams sent to the prober, Accept, session list) vs Mieru.Server.tcpRun / udpRun on the probe's unit tokens")
 			run("C05", "C05")(c)
+			c05Differential(c)
 		},
 		Replay: func(c *core.Ctx, raw json.RawMessage) {
 			var k probeCase
 			if json.Unmarshal(raw, &k) == nil {
-				runProbeCase(c, k, "C05")
+				switch k.Stage {
+				case "C05-diff":
+					c05DiffReplay(c, k)
+				case "C05-reload":
+					c05ReloadCase(c, reloadCase{Seed: k.Seed, UDP: k.UDP, Stage: k.Stage, Variant: k.Reload})
+					bgClose.Wait(30 * time.Second)
+				default:
+					runProbeCase(c, k, "C05")
+				}
 			}
 		},
 	})
 	core.RegisterExtra("C06", func(c *core.Ctx) {
-		c.Correspondence("protocol level: recorded genuine TCP streams (whole, every prefix at a segment boundary, arbitrary prefixes ≥ 72 bytes, first segment alone) and recorded UDP datagrams re-sent from another source address against the real server, while a fresh genuine session runs")
+		c.Correspondence("protocol level: recorded genuine TCP streams (whole, every prefix at a segment boundary, arbitrary prefixes ≥ 72 bytes, first segment alone) and recorded UDP datagrams re-sent from another source address against the real server, while a fresh genuine session runs, right after the echo and after the original session ended")
 		run("C06", "C06")(c)
 	})
 }
